@@ -389,19 +389,21 @@ theorem contStep_plain (s : ContState) (c : Chunk) (rid : String)
   have hsup : c.isSuperrun = false := by simp [Chunk.isSuperrun, hs]
   have hpc : c.promisedContinuity = true := by simp [Chunk.promisedContinuity, hsup]
   have hls : c.lastSubrun = none := by simp [Chunk.lastSubrun, hsup]
+  have hbad : c.isSuperrunBad = false := by simp [Chunk.isSuperrunBad, hs]
   obtain ⟨le, lr, ls, lsn⟩ := s
   simp only at hl
   subst hl
-  unfold contStep
-  simp only [hr, hsup, hpc, hls]
+  unfold contStep contStepCore
+  simp only [hr, hsup, hpc, hls, hbad]
   cases le <;> simp [bind, Except.bind, pure, Except.pure, throw, throwThe, MonadExceptOf.throw]
 
 theorem contStep_first (c : Chunk) (rid : String) (hr : c.runId = some rid) (hs : c.subruns = none) :
     contStep {} c = .ok { lastEnd := some c.stop, lastRun := some (some rid), lastSubrun := none, lastSubIsNone := true } := by
   have hsup : c.isSuperrun = false := by simp [Chunk.isSuperrun, hs]
   have hls : c.lastSubrun = none := by simp [Chunk.lastSubrun, hsup]
-  unfold contStep
-  simp [hr, hsup, hls, pure, Except.pure, bind, Except.bind]
+  have hbad : c.isSuperrunBad = false := by simp [Chunk.isSuperrunBad, hs]
+  unfold contStep contStepCore
+  simp [hr, hsup, hls, hbad, pure, Except.pure, bind, Except.bind]
 
 /-- a stream of one ordinary run, entered with the previous end `e` known -/
 def breakFrom (e : Int) : List Chunk → Bool
@@ -510,5 +512,24 @@ theorem process_delivered_ok {σ α} (check : σ → α → Except Err σ) :
       | ok st' =>
         simp only [List.map_cons]
         exact (List.prefix_cons_inj _).mpr (ih st' (sv.save a))
+
+/-- with `continuity_check` as the consumer's check, what `process` delivers and the error it ends
+with are exactly those of `targetStream` -/
+theorem process_contStep_eq_targetStream :
+    ∀ (cs : List Chunk) (st : ContState) (sv : Saver Chunk),
+      (process contStep st (cs.map Except.ok) sv).2 = targetStreamFrom st cs := by
+  intro cs
+  induction cs with
+  | nil => intro st sv; simp [process, targetStreamFrom]
+  | cons c rest ih =>
+    intro st sv
+    simp only [List.map_cons, process, targetStreamFrom]
+    cases hc : contStep st c with
+    | error e => simp
+    | ok st' =>
+      simp only
+      have := ih st' (sv.save c)
+      rw [Prod.ext_iff] at this
+      simp [this.1, this.2]
 
 end Strax.Contract
